@@ -143,4 +143,33 @@ PROPS = {
                       "(no R): the R file is the source of the spec; its inner loop covers 200 cells where Python sums 201 — the extra term "
                       "is evaluated numerically and reported in the evidence.",
     },
+    "C05": {
+        "targets": ["spowtd.fit_offsets:split_mapping_by_keys"],
+        "lean": ["LeastSquares.lean"],
+        "bounded": [{"run": "bounded.fit_checks:run_C05",
+                     "what": "bounded stand-in for the assembly of the normal equations in find_offsets: on every small connected "
+                             "overlap structure the returned offsets are compared, in exact rational arithmetic, with 'the residuals "
+                             "of every interval sum to zero' (the hypothesis of the Lean theorem) and with perturbed offsets"}],
+        "level_text": "The mathematics is machine-checked in Lean 4 + Mathlib (lean/LeastSquares.lean, theorem c05 and lemmas): from "
+                      "(A^T A) x = A^T b for the design matrix / vector of the property's objective, x minimises the summed squared "
+                      "spread, every interval's residuals sum to zero, and the minimiser is unique up to a common shift on a connected "
+                      "overlap graph. That find_offsets assembles exactly that A and b and solves those equations is a bounded stand-in "
+                      "in this revision (exact re-computation on small structures), not a discharged obligation.",
+        "level_note": "Bridge (reviewed, not machine-linked): designA / designB in Lean and the matrix rows written by find_offsets are "
+                      "the same two formulas. Assumed: numpy.dot and numpy.linalg.solve are exact (floats as reals).",
+    },
+    "C08": {
+        "targets": ["spowtd.fit_offsets:split_mapping_by_keys"],
+        "lean_thorough": ["LeastSquares.lean"],
+        "bounded": [{"run": "bounded.fit_checks:run_C08",
+                     "what": "bounded stand-in for get_connected_components / get_series_time_offsets: all small overlap structures "
+                             "(connected and disconnected): one connected group is returned, all of its intervals and no others; "
+                             "relative alignment invariant under permutation of the intervals and under per-interval time shifts"}],
+        "level_text": "Order / internal-zero independence is a corollary of the Lean theorem unique_up_to_shift (the minimiser is determined "
+                      "by the set of intervals up to one constant). split_mapping_by_keys is proved; get_connected_components (dict keyed by "
+                      "growing tuples, side-effecting comprehension: outside the pyvc subset) and the index plumbing of "
+                      "get_series_time_offsets are a bounded stand-in.",
+        "level_note": "Ties between equally large groups make the choice depend on dict order; the stand-in requires a unique largest group "
+                      "for the 'same group after permutation' clause.",
+    },
 }
